@@ -105,6 +105,50 @@ def run(ctx: Ctx) -> None:
                         ctx.ob("R2.3", f"parser:CxxParser.{fname}|{t.value.id}.{t.attr} = ...", ok,
                                msg=f"a cv-qualifier is stored on a node that may be {sorted(have - frozenset(has_cv))}, which has no such field", node=st, mod=mod)
 
+    # ---------------------------------------------------------------- R2.11
+    # `typedef R name(params...)`: the FunctionType the alias denotes is made from the Function just parsed.  Wherever a
+    # FunctionType is built from the fields of one Function object, every field the two classes share comes along
+    # (a function type without its `...`, its convention or its noexcept denotes another type).  Whole package.
+    ctx.rule("R2.11", "a FunctionType built from a Function object takes every field the two classes share", minimum=1)
+    from .c03 import dataclass_fields as _dcf
+    _types = ctx.repo.mod("types")
+    ft_fields = list(_dcf(_types, "FunctionType"))
+    shared_f = [f for f in ft_fields if f in set(_dcf(_types, "Function"))]
+    for mname, m_ in sorted(ctx.repo.modules.items()):
+        for q_, f_ in m_.functions():
+            for c in walk_local(f_):
+                if not (isinstance(c, ast.Call) and isinstance(c.func, ast.Name) and c.func.id == "FunctionType"):
+                    continue
+                given: Dict[str, ast.AST] = {}
+                for i_, a_ in enumerate(c.args):
+                    if i_ < len(ft_fields):
+                        given[ft_fields[i_]] = a_
+                for k_ in c.keywords:
+                    if k_.arg:
+                        given[k_.arg] = k_.value
+                # resolve single-definition locals (`return_type = fn.return_type`)
+                def _src(e: ast.AST, field: str) -> Optional[Tuple[str, str]]:
+                    cands = [e]
+                    if isinstance(e, ast.Name):
+                        # a local that holds the field (`return_type = fn.return_type`, tested for None in between)
+                        cands = [st.value for st in walk_local(f_) if isinstance(st, ast.Assign) and len(st.targets) == 1 and isinstance(st.targets[0], ast.Name) and st.targets[0].id == e.id
+                                 and st.lineno <= c.lineno]
+                        cands.sort(key=lambda v: not (isinstance(v, ast.Attribute) and v.attr == field))
+                    for v in cands:
+                        if isinstance(v, ast.Attribute) and isinstance(v.value, ast.Name):
+                            return (v.value.id, v.attr)
+                    return None
+                srcs = {f: _src(v, f) for f, v in given.items()}
+                bases = [b for b, a in (x for x in srcs.values() if x) if a in shared_f]
+                if not bases:
+                    continue
+                base = max(set(bases), key=bases.count)
+                if bases.count(base) < 2:
+                    continue
+                missing = [f for f in shared_f if srcs.get(f) != (base, f)]
+                ctx.ob("R2.11", f"{mname}:{q_}|FunctionType(...) from the fields of `{base}`", not missing,
+                       msg=f"the function type is built from `{base}` without its {missing}: the alias denotes a different type than the declaration (e.g. a C variadic or a calling convention is lost)", node=c, mod=m_)
+
     # ---------------------------------------------------------------- R2.4
     ctx.rule("R2.4", "flags sit on the node they belong to (trailing return, vararg, calling convention)", minimum=5)
     # does the trailing-type parser do the substitution itself, on the function object it is handed?
